@@ -2,6 +2,7 @@
 import json
 import os
 import random
+import threading
 import vf
 
 PID = "C04"
@@ -30,7 +31,7 @@ def _shape(steps):
     pre &= set(vals)
     acc = [st for st in steps if st["ev"] == "Accounts" and st["run"] == test and not st.get("err")]
     noacct = (set(vals) - pre - set(acc[0]["accts"])) if acc else set()
-    sg = [st for st in steps if st["ev"] == "Sign" and st["run"] == test]
+    sg = [st for st in steps if st["ev"] == "SignRet" and st["run"] == test]
     zero = set(sg[0]["zero"]) if sg else set()
     return vals, pre, noacct, zero
 
@@ -40,32 +41,186 @@ def sig_of(s):
     first_skipped = bool(vals) and vals[0] in pre
     return {"merge": s.get("merge", False), "skips_already_attested": bool(pre),
             "skips_without_account": bool(noacct), "has_unsigned": bool(zero),
-            "validators": len(vals), "first_skipped": first_skipped}
+            "validators": len(vals), "first_skipped": first_skipped,
+            "history": s.get("kind") == "ovl", "hold": s["steps"][0].get("hold", "")}
+
+
+def _overlaps(rows):
+    """Pairs (A, B) of runs on the one instance such that B was given >= 1 account (and so worked out its per-validator
+    values) after A had been given >= 2 and before A's submitter returned, A submitting some:
+    A's request / attestations were exposed to B's work.  Taken from the recorded trace, not from the scenario."""
+    acc, sub, duty = {}, {}, {}
+    for i, r in enumerate(rows):
+        if r["ev"] == "Deliver":
+            duty[r["run"]] = r["duty"]
+        elif r["ev"] == "Accounts" and not r["err"] and r["accts"]:
+            acc[r["run"]] = (i, len(r["accts"]))
+        elif r["ev"] == "SubmitRet" and r["atts"]:
+            sub[r["run"]] = i
+    n = 0
+    for a, (ia, na) in acc.items():
+        for b, (ib, nb) in acc.items():
+            if a != b and na >= 2 and a in sub and ia < ib < sub[a] and duty[a] != duty[b]:
+                n += 1
+    return n
+
+
+def _carried(rows):
+    """Runs that submit after an earlier run on the instance has ended (state carried from call to call), the two
+    duties sharing a validator or a committee index with different values."""
+    ended, n = [], 0
+    duty = {}
+    for r in rows:
+        if r["ev"] == "Deliver":
+            duty[r["run"]] = r["duty"]
+        elif r["ev"] == "Return":
+            ended.append(r["run"])
+        elif r["ev"] == "Submit" and r["atts"]:
+            d = duty[r["run"]]
+            for e in ended:
+                o = duty[e]
+                if o != d and (set(o["vals"]) & set(d["vals"]) or o["sizes"] != d["sizes"]):
+                    n += 1
+                    break
+    return n
 
 
 def nontrivial(s, rows):
+    if s.get("kind") == "ovl":
+        # a history on one instance in which a run's values were exposed to another run (overlap) or to an earlier one
+        return _overlaps(rows) > 0 or _carried(rows) > 0
     # the duty under test skips somebody (already attested, no account or unsigned) and still submits
     vals, pre, noacct, zero = _shape(s["steps"])
     sub = [r for r in rows if r["ev"] == "Submit" and r["atts"]]
     return bool(sub) and bool(pre or noacct or zero)
 
 
+def _interest(h):
+    """(scenario side) how much of a run's work between its accounts and its submission is overlapped by other runs'
+    accounts steps"""
+    acc, end = {}, {}
+    for i, st in enumerate(h):
+        if st["ev"] == "Accounts" and not st.get("err") and len(st["accts"]) >= 1:
+            acc[st["run"]] = (i, len(st["accts"]))
+        elif st["ev"] == "SubmitRet":
+            end[st["run"]] = i
+    score = 0
+    for a, (ia, na) in acc.items():
+        for b, (ib, nb) in acc.items():
+            if a != b and na >= 2 and a in end and ia < ib < end[a]:
+                score += 2 if nb <= na else 1
+    return score
+
+
+def history_scenarios(tier, first_id):
+    """Histories of several heterogeneous runs on ONE instance, overlapping (Scen_Attester mode c04ovl)."""
+    rnd = random.Random(vf.seed() * 7919 + 1)
+    num = 1800 if tier == "quick" else 12000
+    want = 600 if tier == "quick" else 6000
+    hs = vf.tlc_scenarios(PID, "Scen_Attester", "Scen_Attester_c04ovl.cfg", num=num, depth=100, name="scen-c04ovl",
+                          timeout=300 if tier == "quick" else 1200)
+    # the histories whose overlap exposes the most first, then a seeded sample of the rest; every hold point present
+    ranked = sorted(hs, key=_interest, reverse=True)
+    top = ranked[:want // 2]
+    rest = ranked[want // 2:]
+    rnd.shuffle(rest)
+    pick = top + rest[:want - len(top)]
+    out = []
+    for i, h in enumerate(pick):
+        out.append({"sc": first_id + i, "kind": "ovl", "mode": "gated", "strategy": "", "merge": i % 3 == 2, "steps": h})
+    return out
+
+
 def scenarios(tier):
     rnd = random.Random(vf.seed())
-    hs = vf.tlc_scenarios(PID, "Scen_Attester", "Scen_Attester_c04.cfg", exhaustive=True, workers=min(vf.NCPU, 8),
-                          timeout=600, name="scen-c04")
+    # the three generators side by side (each a TLC process of its own)
+    got = {}
+
+    def gen(key, fn):
+        try:
+            got[key] = fn()
+        except BaseException as e:
+            got[key] = e
+
+    jobs = [
+        ("small", lambda: vf.tlc_scenarios(PID, "Scen_Attester", "Scen_Attester_c04.cfg", exhaustive=True, workers=4,
+                                           timeout=600, name="scen-c04")),
+        # larger duties (5 validators in 3 committees), TLC simulation of the same generator
+        ("big", lambda: vf.tlc_scenarios(PID, "Scen_Attester", "Scen_Attester_c04big.cfg", num=150 if tier == "quick" else 6000,
+                                         depth=60, name="scen-c04big", timeout=300 if tier == "quick" else 900)),
+        ("hist", lambda: history_scenarios(tier, 100001)),
+    ]
+    ths = [threading.Thread(target=gen, args=j) for j in jobs]
+    for t in ths:
+        t.start()
+    for t in ths:
+        t.join()
+    for k in got:
+        if isinstance(got[k], BaseException):
+            raise got[k]
+    hs = got["small"]
     hs.sort(key=lambda h: json.dumps(h, sort_keys=True))
     n = 900 if tier == "quick" else 9000
     if len(hs) > n:
         hs = rnd.sample(hs, n)
     out = [{"sc": i + 1, "mode": "gated", "strategy": "", "merge": i % 3 == 2, "steps": h} for i, h in enumerate(hs)]
-    # larger duties (5 validators in 3 committees), TLC simulation of the same generator
-    m = 150 if tier == "quick" else 6000
-    big = vf.tlc_scenarios(PID, "Scen_Attester", "Scen_Attester_c04big.cfg", num=m, depth=60, name="scen-c04big",
-                           timeout=300 if tier == "quick" else 900)
-    for h in big[:(120 if tier == "quick" else 4000)]:
+    for h in got["big"][:(120 if tier == "quick" else 4000)]:
         out.append({"sc": len(out) + 1, "mode": "gated", "strategy": "", "merge": len(out) % 3 == 2, "steps": h})
-    return out
+    return out + got["hist"]
+
+
+def _expect_violation(cfg, inv, timeout=600):
+    """A control design (spec/AttesterScratch.tla) that the invariants must reject: otherwise the model cannot see
+    the class (broken run, never a verdict)."""
+    r = vf.tlc(PID, "mc-" + cfg.replace(".cfg", ""), "AttesterScratch", cfg, workers=4, timeout=timeout, heap="6g")
+    if r["timed_out"] or r["kind"] != "invariant" or r["violated"] != inv:
+        raise vf.Broken("%s should violate %s (vacuous model?): %s %s\n%s" % (cfg, inv, r["kind"], r["violated"], r["out"][-1500:]))
+    vf.log("TLC AttesterScratch/%s: %s violated as it must be (%d distinct states, %.1fs)" % (cfg, inv, r["distinct"], r["wall_s"]))
+    return r
+
+
+def model(tier, out):
+    """Exhaustive runs (in threads beside the driver); results / exception into out."""
+    ex = lambda mod, cfg, **kw: (lambda: vf.tlc_exhaustive(PID, mod, cfg, workers=6 if "timeout" in kw else 4, **kw))
+    bad = lambda cfg, inv: (lambda: _expect_violation(cfg, inv) and None)
+    lanes = [
+        [ex("MC_Attester", "MC_Attester_C04.cfg"),
+         # two runs OVERLAPPING on one instance, duties whose positions and sizes differ from slot to slot
+         ex("MC_Attester", "MC_Attester_C04ovl.cfg"),
+         # ... a memo of committee sizes is rejected already by a sequential history ...
+         bad("MC_AttesterScratch_memo.cfg", "AssignmentExact")],
+        # control designs with state kept on the instance: retained arrays handed out by reference are rejected as soon
+        # as two runs overlap (held at the signer: request; held in the signer: attestations) ...
+        [bad("MC_AttesterScratch_shared_req.cfg", "SignAssignmentExact"),
+         bad("MC_AttesterScratch_shared_att.cfg", "AssignmentExact"),
+         # ... while they pass every sequential history (why call-after-call checks cannot see them) ...
+         ex("AttesterScratch", "MC_AttesterScratch_seq.cfg")],
+        # ... and copied out under the lock they are a legal implementation
+        [ex("AttesterScratch", "MC_AttesterScratch_copy.cfg")],
+    ]
+    if tier == "thorough":
+        lanes[0] += [ex("MC_Attester", "MC_Attester_C04big.cfg", timeout=1200), ex("MC_Attester", "MC_Attester_C04ovlhuge.cfg", timeout=1500)]
+        lanes[1] += [ex("MC_Attester", "MC_Attester_C04ovlbig.cfg", timeout=1200)]
+        lanes[2] += [ex("AttesterScratch", "MC_AttesterScratch_copy_big.cfg", timeout=1200)]
+    res, errs = [], []
+
+    def lane(jobs):
+        try:
+            for j in jobs:
+                r = j()
+                if r is not None:
+                    res.append(r)
+        except BaseException as e:      # re-raised by the caller
+            errs.append(e)
+
+    ths = [threading.Thread(target=lane, args=(l,)) for l in lanes]
+    for t in ths:
+        t.start()
+    for t in ths:
+        t.join()
+    if errs:
+        out["err"] = errs[0]
+    out["mc"] = res
 
 
 def run(tier):
@@ -75,17 +230,32 @@ def run(tier):
         "Env_AccountsSubset: the account manager returns accounts of requested validators only; the signer returns one "
         "signature per account",
         "the fake signer's signature encodes (validator of the account, committee index, slot, source, target, roots)",
+        "Env_Window (C01's assumption) for the histories: runs of one instance are for the current and the next epoch",
     ]
-    v.add_mc(vf.tlc_exhaustive(PID, "MC_Attester", "MC_Attester_C04.cfg"))
-    if tier == "thorough":
-        v.add_mc(vf.tlc_exhaustive(PID, "MC_Attester", "MC_Attester_C04big.cfg", timeout=1200))
-    sc = scenarios(tier)
-    vf.conformance(v, sc, driver, TRACE[0], TRACE[1], sig_of, nontrivial, dfs=True, chunk=1500)
+    out = {}
+    th = threading.Thread(target=model, args=(tier, out))
+    th.start()
+    try:
+        sc = scenarios(tier)
+        vf.conformance(v, sc, driver, TRACE[0], TRACE[1], sig_of, nontrivial, dfs=True, chunk=700)
+    finally:
+        th.join()
+    if "err" in out:
+        raise out["err"]
+    for r in out["mc"]:
+        v.add_mc(r)
     v.coverage["rule"] = ("scenarios enumerated by TLC from Attester.tla: (optional preparatory run making a subset already "
                           "attested) x duty under test (every order and committee assignment of <= 3 validators; seeded "
                           "simulation for 5 validators in 3 committees) x subset without account x subset unsigned x submit "
                           "ok/error; a third built through attester.MergeDuties; non-trivial = the duty skips a validator and "
-                          "still submits; distinct by step list")
+                          "still submits; distinct by step list.  Histories: TLC-simulated behaviours of Attester.tla with up to 4 runs "
+                          "on ONE service instance, every run another duty (slot, validators, committee assignment, positions, "
+                          "committee sizes; validators / committee indices / slots met again with other values), every failure "
+                          "branch, run 1 held before / inside the signer, before / inside the submitter, inside the data fetch or "
+                          "the accounts lookup while run 2 goes from start to end, later runs one after the other, or all runs "
+                          "interleaved freely; non-trivial = in the recorded trace a run's per-validator values were exposed to "
+                          "another run's work (between its accounts and its submission) or to an earlier run's (shared validator "
+                          "or committee index with other values)")
     return v.finish()
 
 
